@@ -995,7 +995,7 @@ func (w *world) exec(o op) (out stepOut) {
 		}
 	}
 	switch o.K {
-	case "accept", "accept-reject", "reject-far", "accept-setid", "accept-slowhook":
+	case "accept", "accept-reject", "reject-far", "accept-setid", "accept-slowhook", "hook-setid-reject", "hook-setid-accept":
 		if w.closed[sideS] || w.closed[sideC] || len(w.links) >= 14 {
 			out.skipped = true
 			return
@@ -1005,11 +1005,41 @@ func (w *world) exec(o op) (out stepOut) {
 		if w.tcp && o.V%4 != 0 {
 			via = "dial" // ServeConn'ed client connections to one listener share their default id (see scriptList)
 		}
+		var unknown *sinfo // live holder of an id that a REFUSED connection's hook named: only the index clauses are judged for it
 		switch o.K {
 		case "accept-reject":
 			dS.reject = true
 		case "reject-far":
 			dC.reject = true
+		case "hook-setid-reject", "hook-setid-accept":
+			// the accept / dial hook names the session (PreSession.SetID, which already stores it in the index) and
+			// then refuses or accepts the connection. Side 0: the accepting peer's PostAccept hook; side 1: the far
+			// peer's hook (PostAccept under ServeConn, PostDial when the far end dials).
+			via = "serveconn"
+			if w.tcp && o.V%2 == 1 {
+				via = "dial"
+			}
+			side, d := sideS, dS
+			if o.Side%2 == 1 {
+				side, d = sideC, dC
+				out.label += "-far"
+				if via == "dial" {
+					out.label = o.K + "-dial"
+				}
+			}
+			cands := w.liveOn(side, nil)
+			if o.V%4 >= 2 && len(cands) > 0 {
+				h := cands[(o.V/4)%len(cands)]
+				d.setid = h.mid
+				out.label += "-collide"
+				if o.K == "hook-setid-reject" {
+					unknown = h
+				}
+			} else {
+				w.idn++
+				d.setid = fmt.Sprintf("id%d", w.idn)
+			}
+			d.reject = o.K == "hook-setid-reject"
 		case "accept-setid":
 			cands := w.liveOn(sideS, nil)
 			if o.V%4 >= 2 && len(cands) > 0 {
@@ -1097,6 +1127,14 @@ func (w *world) exec(o op) (out stepOut) {
 				w.mark(a, "its accept hook rejected it and the peer closed it")
 			}
 			w.mClose(b, "the far peer rejected the connection")
+		}
+		if unknown != nil {
+			// whether naming a connection that is then refused must already have closed the live holder of that id
+			// is not something the statement decides: the holder (and the far end of its connection) leave the model
+			unknown.m = mNone
+			if p := unknown.partner(); p != nil {
+				p.m = mNone
+			}
 		}
 	case "setid-fresh", "setid-collide", "setid-same":
 		l := w.pickLink(o)
@@ -1334,7 +1372,7 @@ func minimise(path string, ops []op, first hres) ([]op, hres) {
 		}
 	}
 	for i := 0; i < len(cur)-1 && budget > 0; i++ {
-		if strings.HasPrefix(cur[i].K, "accept-") || cur[i].K == "reject-far" {
+		if strings.HasPrefix(cur[i].K, "accept-") || cur[i].K == "reject-far" || strings.HasPrefix(cur[i].K, "hook-setid-") {
 			cand := append([]op(nil), cur...)
 			cand[i].K = "accept"
 			try(cand)
@@ -1348,6 +1386,7 @@ var opWeights = []struct {
 	w int
 }{
 	{"accept", 16}, {"accept-reject", 4}, {"reject-far", 3}, {"accept-setid", 6}, {"accept-slowhook", 3},
+	{"hook-setid-reject", 5}, {"hook-setid-accept", 3},
 	{"setid-fresh", 9}, {"setid-collide", 11}, {"setid-same", 3}, {"call", 10}, {"push", 8},
 	{"close", 8}, {"remote-close", 6}, {"cut-eof", 4}, {"cut-reset", 4},
 }
@@ -1369,7 +1408,11 @@ func genOps(r *core.Rand, maxOps int) []op {
 			}
 			x -= ow.w
 		}
-		ops = append(ops, op{K: k, L: r.Intn(64), Side: r.Intn(4) / 3, V: r.Intn(1 << 12)})
+		o := op{K: k, L: r.Intn(64), Side: r.Intn(4) / 3, V: r.Intn(1 << 12)}
+		if strings.HasPrefix(k, "hook-setid-") {
+			o.Side = r.Intn(3) / 2 // a third of them in the far peer's hook
+		}
+		ops = append(ops, o)
 	}
 	ops = append(ops, op{K: "peer-close", Side: r.Intn(8) / 7})
 	if r.Intn(3) == 0 {
@@ -2217,6 +2260,31 @@ func main() {
 					sd.Delay = *seed*100 + int64(ds)
 				}
 				doScript(fmt.Sprintf("g%d.%s.%03d", ds, path[:1], i), path, sd)
+			}
+		}
+	}
+	// directed histories: a hook names the session and then refuses (or, as control, accepts) the connection -
+	// in the accepting peer's PostAccept hook, in the far peer's PostAccept hook, in the far peer's PostDial hook;
+	// with a fresh id and with the id of a live session; on both acceptance paths
+	di := 0
+	for _, path := range []string{"serveconn", "listener"} {
+		for _, k := range []string{"hook-setid-reject", "hook-setid-accept"} {
+			for side := 0; side < 2; side++ {
+				for _, dial := range []int{0, 1} {
+					if dial == 1 && (path != "listener" || side == 0) {
+						continue // only the far end of the listener path dials
+					}
+					for _, collide := range []int{0, 2} {
+						ops := []op{{K: "accept", V: 1}, {K: "accept", V: 5},
+							{K: k, Side: side, V: dial + collide + 4*di},
+							{K: "call", L: 0, Side: side}, {K: "peer-close", Side: 0}, {K: "peer-close", Side: 1}}
+						di++
+						if !mine() {
+							continue
+						}
+						doHistory(fmt.Sprintf("d%03d", di-1), path, ops)
+					}
+				}
 			}
 		}
 	}
